@@ -3,6 +3,7 @@ import MosnVerif.Model.HealthFlags
 import MosnVerif.Model.HealthRegistry
 import MosnVerif.Model.HealthCheck
 import MosnVerif.Model.HealthLoop
+import MosnVerif.Model.HealthDispatch
 import MosnVerif.Model.HealthLifecycle
 namespace MosnVerif.Drive.C16
 open MosnVerif.Drive MosnVerif.Model
@@ -245,6 +246,97 @@ def hc (kind : String) (cu ch f0 res : String) (impl : List String) : String :=
 end Thresholds
 
 
+/-! ## part B': `hl <cfgU> <cfgH> <initial word> <script>` — the dispatch loop with handlers that take time (harness/c16/dispatch.go) -/
+section Dispatch
+open MosnVerif.Model.HealthCheck MosnVerif.Model.HealthDispatch
+
+/-- the loop goroutine runs on: remaining actions of the branch; a parked timeout is received at the next select -/
+def hlSettle (p : Prog) : Nat → D → D
+  | 0, s => s
+  | n + 1, s =>
+    if s.exited then s
+    else if s.todo.isEmpty then (if s.parked.isEmpty then s else hlSettle p n (HealthDispatch.step p s .recvTimeout))
+    else hlSettle p n (HealthDispatch.step p s .act)
+
+/-- run the branch up to and including the result handler; while a handler that outlasts the timeout is pending/running the
+timeout timer is given the chance to fire before every action -/
+def hlToHandler (p : Prog) (blocked : Bool) (len0 : Nat) : Nat → D → D
+  | 0, s => s
+  | n + 1, s =>
+    if s.log.length > len0 || s.todo.isEmpty then s
+    else
+      let s := if blocked then HealthDispatch.step p s .fireTimeout else s
+      hlToHandler p blocked len0 n (HealthDispatch.step p s .act)
+
+/-- one scripted check on the model: the environment's events in the order the script forces them -/
+def hlCheck (p : Prog) (s : D) (c : Char) (stop : Bool) : D :=
+  let len0 := s.log.length
+  let s := HealthDispatch.step p s .fireCheck
+  let id := s.checkID
+  let blocked := c == 'S' || c == 'F' || c == 'a' || c == 'b'
+  let s := if c == 't' || c == 'U' then HealthDispatch.step p s .fireTimeout
+           else HealthDispatch.step p s (.answer id (c == 's' || c == 'S' || c == 'a'))
+  let s := hlToHandler p blocked len0 8 s
+  -- the handler is running: the timeout of an answered check would expire now
+  let s := if blocked then HealthDispatch.step p s .fireTimeout else s
+  let s := if stop then HealthDispatch.step p s .stop else s
+  hlSettle p 16 s
+
+def hlParse : List Char → Option (List (Char × Bool))
+  | [] => some []
+  | c :: '!' :: r => if c == '!' then none else (hlParse r).map ((c, true) :: ·)
+  | c :: r => if "sfSFabtU".toList.contains c then (hlParse r).map ((c, false) :: ·) else none
+
+/-- model: segments (one session checker each) through the regenerated loop program and the regenerated handlers -/
+def hlModel (u h : Int) : D → St → List (Char × Bool) → List (Result × Out)
+  | s, st, [] => (HealthDispatch.results s).foldl (fun (acc : St × List (Result × Out)) r =>
+        let x := HealthCheck.step u h acc.1 r; (x.1, acc.2 ++ [(r, x.2)])) (st, []) |>.2
+  | s, st, (c, stop) :: r =>
+    let s := hlCheck genProg s c stop
+    if stop then
+      -- this session checker is over: its results, then a new checker (counters zero, same flag)
+      let seg := (HealthDispatch.results s).foldl (fun (acc : St × List (Result × Out)) r =>
+        let x := HealthCheck.step u h acc.1 r; (x.1, acc.2 ++ [(r, x.2)])) (st, [])
+      seg.2 ++ hlModel u h (D.init genProg) (St.init seg.1.flag) r
+    else hlModel u h s st r
+
+def hlFmt (l : List (Result × Out)) : String :=
+  if l.isEmpty then "-" else
+  String.join (l.map fun (r, o) => (if r == Result.timeout then "o" else "") ++ String.singleton (outDigit o))
+
+/-- reference, from the script alone: one result per check (its own), counters restart with a new session checker -/
+def hlSpec (u h : Nat) : Bool → List Result → List (Char × Bool) → List (Result × Out)
+  | _, _, [] => []
+  | unh, rev, (c, stop) :: r =>
+    let res : Result := if c == 's' || c == 'S' || c == 'a' then .success
+                        else if c == 't' || c == 'U' then .timeout else .failure
+    match HealthCheck.spec u h unh rev [res] with
+    | [o] => (res, o) :: (if stop then hlSpec u h o.flagAfter [] r else hlSpec u h o.flagAfter (res :: rev) r)
+    | _ => []
+
+def hl (cu ch f0 script : String) (impl : List String) : String :=
+  match cu.toNat?, ch.toNat?, f0.toNat?, hlParse (if script == "-" then [] else script.toList), impl with
+  | some u, some h, some w0, some cs, [tr, fw] =>
+    let flag0 := w0 % 2 == 1
+    let eu := Gen.HealthCheck.effUnhealthyThreshold u
+    let eh := Gen.HealthCheck.effHealthyThreshold h
+    let outs := hlModel eu eh (D.init genProg) (St.init flag0) cs
+    let model := hlFmt outs
+    let lastFlag := match outs.getLast? with
+      | some o => o.2.flagAfter
+      | none => flag0
+    let mword := s!"w={w0 / 2 * 2 + (if lastFlag then 1 else 0)}"
+    let agree := model == tr && fw == mword
+    let ref := hlSpec (if u = 0 then 1 else u) (if h = 0 then 1 else h) flag0 [] cs
+    let holds : Bool := hlFmt ref == tr &&
+      (match fw.splitOn "=" with
+       | ["w", n] => (n.toNat?.map (fun x => x / 2 == w0 / 2)).getD false
+       | _ => false)
+    s!"{if agree then "A" else "D"} {if holds then "S" else "V"} {model} {mword}"
+  | _, _, _, _, _ => "E E bad-case"
+
+end Dispatch
+
 /-! ## part C: life cycle. `lc <u:h,…> <w0,w1,…> <ops> => <w0,w1,…:cb:l0,l1,…;…>` (see harness/c16/lifecycle.go) -/
 section Lifecycle
 open MosnVerif.Model.HealthLifecycle MosnVerif.Model.HealthCheck
@@ -347,6 +439,7 @@ def run (caseToks impl : List String) : String :=
   | ["ps", pre, th, _] => alloc pre th none impl
   | ["hc", u, h, f0, res] => hc "hc" u h f0 res impl
   | ["hd", u, h, f0, res] => hc "hd" u h f0 res impl
+  | ["hl", u, h, f0, script] => hl u h f0 script impl
   | ["lc", cfg, words, ops] => lc cfg words ops impl
   | _ => "E E unknown-kind"
 
